@@ -235,7 +235,11 @@ def groupnormalization_20_21(node: ir.Node, op):
         bias_expand = op.Expand(bias_reshape_1, expand_sizes)
         bias_reshape_2 = op.Reshape(bias_expand, reshape_2_sizes)
 
-        return op.GroupNormalization(x, scale_reshape_2, bias_reshape_2, num_groups=num_groups)
+        attrs = {"num_groups": num_groups}
+        epsilon = node.attributes.get("epsilon")
+        if isinstance(epsilon, ir.Attr) and isinstance(epsilon.value, float):
+            attrs["epsilon"] = epsilon.value
+        return op.GroupNormalization(x, scale_reshape_2, bias_reshape_2, **attrs)
     return None
 
 
